@@ -1,10 +1,10 @@
 SPECIFICATION Spec
 CONSTANTS
-  EOAs <- E2
+  EOAs <- E1
   Contracts <- K2
-  InitBal <- BalReal22
-  InitWq <- WqReal22
-  InitLock <- Lock22
+  InitBal <- BalReal12
+  InitWq <- WqReal12
+  InitLock <- Lock12
   LockVal = 1000000
   LowGas = 20000
   GasUnit = 700000
@@ -18,7 +18,7 @@ CONSTANTS
   CallValues <- RV01
   Regimes <- RBG
   Prefills <- PF0
-  TxKinds <- TKBasicIn
+  TxKinds <- TKAll
   OpKinds <- OKNone
   DestClasses <- DAll
   AmtClasses <- AAll
@@ -26,10 +26,11 @@ CONSTANTS
   FeeClasses <- FAll
   AlClasses <- ALAll
   MaxDepth = 2
-  MaxFrameOps = 2
+  MaxFrameOps = 1
   MaxTx = 1
   UsedMode = "one"
   GrindFail = FALSE
 VIEW view
+INVARIANTS TypeOK NoNegative NoCreation ExactUnlessBurn EtxBacked ChargeWithinBounds FailedTxTouchesOnlyPayer FailedEtxTouchesNothing AllOrNothing StackDiscipline IndexFresh BlockOutboundIsConcatOfSurvivors
 ACTION_CONSTRAINT EmitHist
 CHECK_DEADLOCK FALSE
